@@ -175,6 +175,15 @@ Theorem witnesses_repaired :
    400; 400; 400; 400; 200].
 Proof. vm_compute. reflexivity. Qed.
 
+(** The tree under test: every witness request of this file gets a deliberate status - in particular
+    the chunked request for a far-future segment with ato_inf (formerly an unbounded sleep) is a 400
+    since /repo 6ca1ef6. *)
+Theorem witnesses_current :
+  map (fun r => status_of (handler_model current envW r)) all_witnesses =
+  [400; 400; 400; 400; 400; 400; 400; 400; 400; 400; 400; 400; 400; 400; 404; 400; 404; 400; 400; 400; 200;
+   400; 400; 400; 400; 200].
+Proof. vm_compute. reflexivity. Qed.
+
 (** Non-vacuity of the composed totality theorem: the hypotheses of [live_handler_total] hold for a
     concrete environment and requests, and the theorem then gives their totality. *)
 Lemma envW_wf : Forall wf_asset (e_assets envW).
